@@ -68,7 +68,7 @@ func main() {
 		if err != nil {
 			panic(fmt.Sprint("propose: ", err))
 		}
-		fmt.Printf("  proposer=%d state.AppHash=%x block.AppHash=%x lastBlockHeight=%d\n", p.Idx, p.State.AppHash[:min(4,len(p.State.AppHash))], blk.AppHash[:min(4,len(blk.AppHash))], p.State.LastBlockHeight)
+		fmt.Printf("  proposer=%d state.AppHash=%x block.AppHash=%x lastBlockHeight=%d\n", p.Idx, p.State.AppHash[:min(4, len(p.State.AppHash))], blk.AppHash[:min(4, len(blk.AppHash))], p.State.LastBlockHeight)
 		bid, _ := chain.BlockIDOf(blk)
 		now = now.Add(time.Second)
 		commit, _, err := chain.MakeCommit(genDoc.ChainID, p.State.Validators, keys, h, 0, bid, now, func(i int) chain.VoteSpec { return chain.VoteSpec{} })
